@@ -169,6 +169,28 @@ def conjuncts(t):
     return out
 
 
+def path_relations(s):
+    """relation key -> truth value, for the decisions of a path whose outcome fixes the relation: a bare test, a negated one,
+    a conjunction taken as true (every conjunct holds), a disjunction taken as false (no disjunct holds)."""
+    out = {}
+
+    def learn(sk, v):
+        if sk is None or sk[0] == 'const':
+            return
+        if sk[0] == 'not':
+            learn(sk[1], not v)
+        elif sk[0] in ('and', 'or'):
+            if (sk[0] == 'and') == v:
+                for x in sk[1]:
+                    learn(x, v)
+        else:
+            k, pos = atom_key(sk)
+            out[k] = v if pos else not v
+    for t, v, sk in s.facts:
+        learn(sk, v)
+    return out
+
+
 # ------------------------------------------------------------------------------------------------ C16.5
 def check_recency(rep, prog):
     # sorting premise: signatures compare by creation time; insertion bisects
@@ -187,8 +209,8 @@ def check_recency(rep, prog):
         ok = any(mut == [('%s.rotate' % me, ['-' + p]), ('%s.appendleft' % me, [item]), ('%s.rotate' % me, [p])] or
                  mut == [('%s.insert' % me, [p, item])] for p in pos) or \
             mut in ([(f, [me, item])] for f in ('bisect.insort', 'bisect.insort_left', 'bisect.insort_right'))
-        if not ok and any(f.startswith('bisect.') for f, a in calls) and not any(f.split('.')[-1] in ('append', 'appendleft', 'extend') and a == [item]
-                                                                                   for f, a in mut[:1]):
+        known = ('rotate', 'appendleft', 'append', 'insert', 'insort', 'insort_left', 'insort_right')
+        if not ok and any(f.split('.')[-1] not in known for f, a in mut):
             raise AnalysisError('SorteDeque.insort: unrecognised sorted insertion %s' % mut)
         rep.check(ok, 'C16.5', 'SorteDeque.insort', 'bisect + rotate insert', 'insertion keeps the deque sorted ascending', where=ins.where, found=mut)
     check_selfsig(rep, prog)
@@ -223,8 +245,8 @@ def check_selfsig(rep, prog):
         # inside the loop and returned at once: the first match in scan order
         first_ok = first_ok and any(f[0].startswith('in loop over') for f in s.facts)
         # the decisions on this path say: issued by the key the identity belongs to
-        rel = [atom_key(a)[0] for t, v, sk in s.facts if sk is not None and v is True for a in keyaction.skel_atoms(sk)]
-        mine = [k for k in rel if k[0] == 'eq' and ('%s._parent.fingerprint' % me) in k[1] and
+        rel = path_relations(s)
+        mine = [k for k, v in rel.items() if v is True and k[0] == 'eq' and ('%s._parent.fingerprint' % me) in k[1] and
                 any(x in k[1] for x in ('%s.signer_fingerprint' % r, '%s.signer' % r))]
         for k in mine:
             sides[[x for x in k[1] if x.startswith(r + '.')][0][len(r) + 1:]] = True
@@ -259,13 +281,7 @@ def check_get_key_flags(rep, prog):
                 continue
             r = render(s.ret)
             ops = _split_top(_strip(r), ' | ')
-            rel = {}
-            for t, v, sk in s.facts:
-                for a in (keyaction.skel_atoms(sk) if sk is not None else []):
-                    if a[0] != 'const' and not (sk[0] in ('and', 'or')):
-                        k, pos = atom_key(a)
-                        neg = sk[0] == 'not'
-                        rel[k] = (v if pos else not v) if not neg else (not v if pos else v)
+            rel = path_relations(s)
             ok = CERT in ops
             rest = [o for o in ops if o != CERT]
             for o in rest:
@@ -280,10 +296,11 @@ def check_get_key_flags(rep, prog):
                 else:
                     ok = False
             if not rest:
-                # Certify alone: only for a key that has no identity at all
-                empty = [k for k, v in rel.items() if truthiness(k, '%s._uids' % me) is not None and (v != truthiness(k, '%s._uids' % me))] + \
-                        [k for k, v in rel.items() if truthiness(k, '%s.userids' % me) is not None and (v != truthiness(k, '%s.userids' % me))]
-                ok = ok and bool(empty) and label == 'default identity'
+                # Certify alone: only for a key that has no identity at all, or whose identity has no self-signature
+                empty = [k for k, v in rel.items() for c in ('%s._uids' % me, '%s.userids' % me)
+                         if truthiness(k, c) is not None and v != truthiness(k, c)]
+                nosig = [k for k, v in rel.items() if k[0] == 'expr' and k[1].endswith('.selfsig') and v is False]
+                ok = ok and ((bool(empty) and label == 'default identity') or bool(nosig))
             rep.check(ok, 'C16.5', 'PGPKey._get_key_flags', 'primary (%s): %s' % (label, r[:100]),
                       'a primary key has Certify plus the flags of its identity\'s (most recent) self-signature', where=gk.where, found=r, scenario=label)
         want = '%s.get_uid(%s)' % (me, up) if label == 'chosen identity' else None
@@ -396,6 +413,9 @@ def check_decrypt_delegation(rep, prog):
                 idx = tgt[len(sb) + 1:-1]
         if idx is None and tgt in s.bound:
             idx = tgt
+        pair = re.match(r'^(\$[\d.]+)_1$', tgt)
+        if idx is None and pair and s.bound.get(pair.group(1)) in [sb + '.items()' for sb in subs]:
+            idx = pair.group(1) + '_0'
         if idx is None:
             raise AnalysisError('PGPKey.decrypt: delegation target %s not understood' % tgt)
         seen = True
@@ -403,8 +423,8 @@ def check_decrypt_delegation(rep, prog):
         encs = r'(?:set\()?%s\)?' % re.escape(enc)
         inter = any(re.search(p, idx) for sp in sets for p in (r'%s & %s' % (sp, encs), r'%s & %s' % (encs, sp),
                                                                   r'%s\.intersection\(%s\)' % (sp, encs), r'%s\.intersection\(%s\)' % (encs, sp)))
-        member = idx in s.bound and any(sk is not None and sk[0] == 'cmp' and sk[1] == 'in' and sk[3] == enc and v is True and
-                                        (sk[2] == idx or sk[2] == idx + '_0') for t, v, sk in s.facts)
+        member = path_relations(s).get(('cmp', 'in', idx, enc)) is True and \
+            (s.bound.get(idx) in subs + tuple(sb + '.keys()' for sb in subs) or (pair is not None and idx == pair.group(1) + '_0'))
         if not (inter or member) and enc in idx:
             raise AnalysisError('PGPKey.decrypt: choice of the delegate %s not understood' % idx)
         rep.check(inter or member, 'C16.6', 'PGPKey.decrypt', 'delegates to %s' % r,
